@@ -7,10 +7,12 @@ from geom import fd_glyphs_json
 from ufo import build, rat
 
 ID = "C02"
-PROOF_FILES = ["Geom", "Reverse", "Render", "Flatten", "GoodCert", "C02", "C02Skip", "C02Drop", "TotalGeom", "TotalFilters", "TotalFilters2", "Total"]
+PROOF_FILES = ["Geom", "Reverse", "Render", "Flatten", "GoodCert", "C02", "C02Skip", "C02Drop", "C02Flags", "TotalGeom", "TotalFilters", "TotalFilters2", "Total"]
 THEOREM = ("Ufo2ft.C02.C02_mixed / C02_render / C02_render_skip / C02_mixed_skip / C02_flatten / C02_points_perm / depth facts (+ shared geometry theorems); "
            "dropImpliedOnCurves: C02_drop_render / C02_drop_idempotent / C02_drop_round / C02_drop_round_bound / C02_drop_spec / "
-           "C02_drop_joint_compatible / C02_drop_joint_subset / C02_drop_joint_maximal / C02_drop_joint_instance / C02_drop_joint_spec; TOTALITY (Props/Total*.lean): C02_preprocess_ok / C02_mixed_total / C02_render_total / C02_render_skip_total - the pre-processing chain returns a result on every well-formed closed glyph set (wfCert)")
+           "C02_drop_joint_compatible / C02_drop_joint_subset / C02_drop_joint_maximal / C02_drop_joint_instance / C02_drop_joint_spec; "
+           "glyf flag post-processing (Props/C02Flags.lean): C02_flags_simple_spec / C02_flags_simple_bits / C02_flags_simple_oncurve / C02_flags_simple_coords / "
+           "C02_flags_simple_absent / C02_flags_simple_value / C02_flags_simple_idempotent / C02_flags_spec_oncurve / C02_flags_slip_witness / C02_flags_step_mask / C02_flags_composite_refs_partial; TOTALITY (Props/Total*.lean): C02_preprocess_ok / C02_mixed_total / C02_render_total / C02_render_skip_total - the pre-processing chain returns a result on every well-formed closed glyph set (wfCert)")
 N = {"quick": 160, "thorough": 3000}
 RULE = ("random fonts (line / quadratic contours incl. contours starting off-curve, open contours; component graphs depth<=4 with "
         "F2Dot14-exact matrices incl. mirrors/shears, half-integer offsets; mixed glyphs; shared bases/diamonds) x {convertCubics, "
@@ -45,7 +47,12 @@ RULE = ("random fonts (line / quadratic contours incl. contours starting off-cur
         "public.objectLibs entries (roundOffsetToGrid / useMyMetrics, either value, or none) x {convertCubics, reverseDirection, flattenComponents}: the keys only "
         "steer glyf FLAG bits written after the outlines are built (OVERLAP_SIMPLE shares the first point's flag byte with the on-curve bit), so every point with "
         "its on/off flag, every component record and maxp are compared with the model (which never sees a lib) and judged by the same predicates; non-trivial = an "
-        "outline glyph carries the key with the value False.")
+        "outline glyph carries the key with the value False.  Each of these fonts gives a second request (op `flags`, tag `glyphlib-flags`): the compiled glyf entries' "
+        "flag bytes with coordinates and contour ends, and the component records with their flag words (masked 0x1E14: the bits the glyf compiler does not compute), "
+        "are compared with the model's setSimpleFlags / setCompositeFlags applied to the MODEL's pen output (flag byte = on-curve bit, component flags = ROUND_XY_TO_GRID) "
+        "under the lib values, identifiers, objectLibs entries and the compiled hmtx advances, and judged by holdsSimpleFlags / holdsCompositeFlags; in half of the "
+        "composites a component is given the glyph's own advance (70% of those also identity and no x shift: eligible for autoUseMyMetrics); 20% compile with "
+        "autoUseMyMetrics=False; flattenComponents gives count mismatches; non-trivial = some first point has OVERLAP_SIMPLE or some component's flag word is not the pen's.")
 ASSUMED = ["cu2qu (curve_to_quadratic) is external: its error bound is measured on the pre-processor's un-rounded output, not proved",
            "glyf binary encoding/decoding and maxp.recalc are fontTools'",
            "dropImpliedOnCurves: fontTools' dropImpliedOnCurvePoints / _is_mid_point are modelled from their source (fontTools 4.55) and tied through the "
@@ -56,9 +63,12 @@ ASSUMED = ["cu2qu (curve_to_quadratic) is external: its error bound is measured 
            "instances at the masters' own locations are observed (gvar deltas in between the masters are varLib's interpolation, C10/C13)",
            "state stream: the model is of inplace=False compiles - it has no lib-key or object-history input at all (that IS the claim: neither may matter); the in-place "
            "mode (inplace=True, where CubicToQuadraticFilter honours and writes the curve-type key and the source is modified on purpose) is not generated and not modelled",
-           "glyph-lib stream: InstructionCompiler._set_simple_flags / _set_composite_flags (glyf flag post-processing) are not modelled - the model has no lib input; "
-           "that they leave the on-curve bits, coordinates and component records alone is observed on the compiled font, not proved; the flag bits themselves "
-           "(OVERLAP_SIMPLE / OVERLAP_COMPOUND / ROUND_XY_TO_GRID / USE_MY_METRICS) are not part of C02's statement and are not checked; glyf-v1 (allQuadratic=False, cubic bit) is not generated"]
+           "glyph-lib stream: InstructionCompiler._set_simple_flags / _set_composite_flags / autoUseMyMetrics are modelled (Model/C02Flags.lean) on the flag bytes / words the "
+           "model's pen output has (quadratic glyphs: 0/1; components: 0x4) and compared with the compiled font; hmtx advances are an input taken from the compiled font; lib values "
+           "are booleans (Python truthiness of other values is not modelled); an objectLibs entry without either key, a glyph missing from the UFO (.notdef) and "
+           "TrueType instructions (public.truetype.instructions, hash check) are not generated; for composites only the reference part is proved (C02_flags_composite_refs_partial), the "
+           "flag-mask clauses of holdsCompositeFlags are evaluated on every compiled composite, not proved; the per-component ROUND_XY_TO_GRID / USE_MY_METRICS VALUES have no declarative "
+           "clause (model/font comparison only); glyf-v1 (allQuadratic=False, cubic bit) is not generated - the simple-glyph theorems hold for any flag bytes, including the cubic bit"]
 
 def _gen_base(rng, n, mode):
     for i in range(n):
@@ -284,9 +294,20 @@ def _gen_glyphlib(rng, n, mode):
             cands = [g for g in fd["glyphs"] if g["contours"]]
             if cands:
                 rng.choice(cands)["lib"] = {OVERLAP_KEY: False}
-        yield {"fd": fd, "skip": [], "cubic": False, "err": None, "convertCubics": rng.random() < 0.7,
-               "reverseDirection": rng.random() < 0.75, "flatten": flatten, "lib": rng.choice(["ufoLib2", "defcon"]),
-               "allQuadratic": True, "glyphlib": True, "clib": clib}
+        case = {"fd": fd, "skip": [], "cubic": False, "err": None, "convertCubics": rng.random() < 0.7,
+                "reverseDirection": rng.random() < 0.75, "flatten": flatten, "lib": rng.choice(["ufoLib2", "defcon"]),
+                "allQuadratic": True, "glyphlib": True, "clib": clib}
+        # autoUseMyMetrics: make a component eligible (same advance, identity, no horizontal shift) in some composites
+        byname = {g["name"]: g for g in fd["glyphs"]}
+        for g in fd["glyphs"]:
+            if g["components"] and not g["contours"] and rng.random() < 0.5:
+                c = rng.choice(g["components"])
+                if c[0] in byname:
+                    g["width"] = byname[c[0]]["width"]
+                    if rng.random() < 0.7:
+                        c[1][0:5] = [1, 0, 0, 1, 0]
+        case["autoUMM"] = rng.random() < 0.8
+        yield case
 
 
 def gen(rng, n, mode):
@@ -477,7 +498,10 @@ def run(case):
         kw["skipExportGlyphs"] = list(case["skip"])
     if case.get("drop"):
         kw["dropImpliedOnCurves"] = True
+    if case.get("autoUMM") is False:
+        kw["autoUseMyMetrics"] = False
     obs = {"err": None}
+    fobs = {"err": None}
     hist_errs = []
     if case.get("libkey"):
         where, val = case["libkey"]
@@ -557,10 +581,31 @@ def run(case):
                 else:
                     d["maxdev"] = "0"; d["tol"] = "0"
                 gl.append(d)
+        if case.get("glyphlib"):
+            # the flag bytes / component flag words of the compiled (saved, reloaded) glyf table, with everything
+            # _set_simple_flags / _set_composite_flags are handed: coordinates, contour ends, the component records
+            fg = []
+            for n in order:
+                if n == ".notdef" and n not in src_names:
+                    continue
+                g = glyf[n]
+                if g.isComposite():
+                    cs_ = []
+                    for c in g.components:
+                        t = getattr(c, "transform", [[1, 0], [0, 1]])
+                        cs_.append([c.glyphName, c.x, c.y, [rat(t[0][0]), rat(t[0][1]), rat(t[1][0]), rat(t[1][1])], c.flags & 0x1E14])
+                    fg.append({"name": n, "kind": "composite", "comps": cs_})
+                elif g.numberOfContours > 0:
+                    fg.append({"name": n, "kind": "simple", "nc": g.numberOfContours, "coords": [[x, y] for x, y in g.coordinates],
+                               "ends": list(g.endPtsOfContours), "flags": list(g.flags)})
+                else:
+                    fg.append({"name": n, "kind": "simple", "nc": g.numberOfContours, "coords": [], "ends": [], "flags": []})
+            fobs.update({"glyphs": fg, "widths": [[n, tt["hmtx"][n][0]] for n in order]})
         obs.update({"glyphs": gl, "order": order,
                     "maxp": {"elements": tt["maxp"].maxComponentElements, "depth": tt["maxp"].maxComponentDepth}})
     except Exception as e:
         obs = {"err": type(e).__name__}
+        fobs = {"err": type(e).__name__}
     inp = {"glyphs": fd_glyphs_json(fd), "convertCubics": case["convertCubics"], "reverseDirection": case["reverseDirection"],
            "flatten": case["flatten"], "skip": case.get("skip") or []}
     dropped = False
@@ -583,7 +628,28 @@ def run(case):
             (["ovl-true-outline"] if any(g["contours"] and vals[g["name"]] is True for g in fd["glyphs"]) else []) + \
             (["ovl-composite"] if any(not g["contours"] and g["components"] and vals[g["name"]] is not None for g in fd["glyphs"]) else []) + \
             (["complib"] if case.get("clib") else [])
-        return [{"op": "font", "in": inp, "obs": obs, "tags": tags, "nontrivial": fsimple and obs.get("err") is None}]
+        reqs = [{"op": "font", "in": inp, "obs": obs, "tags": tags, "nontrivial": fsimple and obs.get("err") is None}]
+        # the flag post-processing itself (Model/C02Flags.lean): what the UFO glyphs' libs say + the compiled hmtx advances
+        clib = case.get("clib") or {}
+        ufl = []
+        for g in fd["glyphs"]:
+            recs = clib.get(g["name"])
+            ids = [None if (recs is None or k >= len(recs) or recs[k] is None) else "c%d" % k for k in range(len(g["components"]))]
+            ol = None
+            if recs is not None and any(r for r in recs):
+                ol = [["c%d" % k, r.get(ROUND_KEY), r.get(METRICS_KEY)] for k, r in enumerate(recs) if r]
+            ufl.append({"name": g["name"], "ovl": g.get("lib", {}).get(OVERLAP_KEY), "ids": ids, "objlibs": ol})
+        finp = dict(inp, flagsIn={"auto": case.get("autoUMM") is not False, "widths": fobs.pop("widths", []), "glyphs": ufl})
+        og = fobs.get("glyphs", [])
+        nset = sum(1 for g in og if g["kind"] == "simple" and g["flags"] and g["flags"][0] & 0x40)
+        ncf = sum(1 for g in og if g["kind"] == "composite" and any(c[4] != 4 for c in g["comps"]))
+        ftags = ["glyphlib-flags", "ovl-simple-set:%d" % min(nset, 2), "compflags-changed:%d" % min(ncf, 2), "auto:%s" % (case.get("autoUMM") is not False),
+                 "flat:%s" % case["flatten"], "err:" + str(fobs.get("err"))] + \
+            (["umm"] if any(c[4] & 0x200 for g in og if g["kind"] == "composite" for c in g["comps"]) else []) + \
+            (["noround"] if any(not (c[4] & 0x4) for g in og if g["kind"] == "composite" for c in g["comps"]) else []) + \
+            (["ovl-compound"] if any(c[4] & 0x400 for g in og if g["kind"] == "composite" for c in g["comps"]) else [])
+        reqs.append({"op": "flags", "in": finp, "obs": fobs, "tags": ftags, "nontrivial": (nset + ncf) > 0 and fobs.get("err") is None})
+        return reqs
     ishist = "hist" in case
     if ishist:
         tags += ["state", "libkey:%s" % ("-".join(case["libkey"]) if case.get("libkey") else None)] + \
@@ -599,6 +665,17 @@ def agree(req, rep):
     m, o = rep["model"], req["obs"]
     if m.get("err") is not None or o.get("err") is not None:
         return (m.get("err") is not None) == (o.get("err") is not None)
+    if req["op"] == "flags":
+        mg = {g["name"]: g for g in m["glyphs"]}
+        for g in o["glyphs"]:
+            e = mg.get(g["name"])
+            if e is None or e["kind"] != g["kind"]:
+                return False
+            if g["kind"] == "simple" and any(e[k] != g[k] for k in ("nc", "coords", "ends", "flags")):
+                return False
+            if g["kind"] == "composite" and e["comps"] != g["comps"]:
+                return False
+        return sorted(mg) == sorted(g["name"] for g in o["glyphs"])
     if req["op"] == "joint":
         if m["contours"] != o["contours"]:
             return False
@@ -711,6 +788,11 @@ LEVEL_NOTE = ("Trusted: Lean kernel + standard axioms; correspondence harness; g
               "curve-type key and leaves the source object untouched (BaseFilter.__call__'s `glyphSet is None` test, `copy=not inplace`, `rememberCurveType and self.inplace`) is "
               "tested, not proved.  Seeded changes that make an empty glyph set fall back to the font's own layer (filters then run in place; the next compile reverses twice) "
               "or that honour the key when not in place (reversal skipped) fail with a failing input on every seed tried.  "
-              "Glyph-lib stream (public.truetype.overlap on glyphs, objectLibs flags on components): predicate-only observation of the same kind - holdsSimple / holdsComposite "
-              "evaluated by the Lean driver on the observed glyf data against the authored source, model (lib-independent) must agree; no new theorem, the instruction "
-              "compiler's flag post-processing is outside the model.  A seeded change that clears the first point's on-curve bit when the key is False fails with a failing input on seeds 0..4.")
+              "Glyph-lib stream (public.truetype.overlap on glyphs, objectLibs flags on components): holdsSimple / holdsComposite "
+              "evaluated by the Lean driver on the observed glyf data against the authored source, model (lib-independent) must agree; and the instruction compiler's flag "
+              "post-processing is now INSIDE the model (Model/C02Flags.lean: setSimpleFlags, setCompositeFlags, autoUseMyMetrics on Nat flag words, `x &= ~m` as x xor (x and m)): "
+              "op `flags` compares the model's flag bytes and component flag words with the compiled glyf and evaluates holdsSimpleFlags / holdsCompositeFlags (Spec/C02Flags.lean) on the font.  "
+              "Proved for all flag lists and lib values (Props/C02Flags.lean): the model meets holdsSimpleFlags; every bit of every point's flag byte except 0x40 of the first is the pen's "
+              "(so on-curve and cubic bits), coordinates / contour ends / counts untouched; key absent or no contours = identity; key present = bit 6 of the first flag is the value; idempotent; any output "
+              "accepted by the predicate keeps all on-curve / cubic bits; kernel-checked negative witness for `first & flag` instead of `first & ~flag` (the point turns off-curve, predicate false).  "
+              "Composites: only that every component keeps base, offset and 2x2 and the count (C02_flags_composite_refs_partial) is proved; the flag-mask clauses are checked per font, not proved.  A seeded change that clears the first point's on-curve bit when the key is False fails with a failing input on seeds 0..4.")
